@@ -180,6 +180,7 @@ def _bind(chk, drv, stores, graphs, kf):
     # ---- 3. the real stores
     singles = [{"kind": "single", "style": "memory", "ev": drv.run_schedule(stores, "memory", subs, wit)[0]}]
     pairs = []
+    n_handoff = 0
     for n, sc in enumerate(scheds):
         per = {}
         for b in BACK:
@@ -197,6 +198,16 @@ def _bind(chk, drv, stores, graphs, kf):
         if per["memory"][0] and per["sqlite"][0]:
             pairs.append({"kind": "pair", "a": per["memory"][0], "b": per["sqlite"][0],
                           "ia": per["memory"][1], "ib": per["sqlite"][1]})
+        # the log belongs to the DATABASE, not to a store object: the same schedule with the appends alternating between
+        # two store objects on one file and the readers on a third (no cross-object notification: judged like the polling
+        # default, one tick after every batch)
+        if n % 4 == 0 and drv.LIVELOCKS.get("sqlite_handoff", 0) < 2:
+            tr, errs = drv.run_schedule(stores, "sqlite_handoff", subs, [bt + [drv.cmd("tick")] for bt in sc])
+            if tr:
+                singles.append({"kind": "single", "style": "handoff", "ev": tr})
+                n_handoff += 1
+            if errs and len(chk.notes) < 5:
+                chk.note("driver saw exception(s) on sqlite_handoff: %s" % errs[:2])
 
     # API layer: a third of the schedules, command by command, through _WorkflowAPI._stream_events
     from harness.drivers import event_api
@@ -214,7 +225,7 @@ def _bind(chk, drv, stores, graphs, kf):
                 n_api += 1
             if errs and len(chk.notes) < 5:
                 chk.note("API driver saw exception(s) on %s: %s" % (b, errs[:2]))
-    chk.add(api_level_executions=n_api)
+    chk.add(api_level_executions=n_api, handoff_executions=n_handoff)
 
     total = nontriv = matched = 0
     CH = 6000
